@@ -529,7 +529,7 @@ func runCase(c c12Case) (f *vh.Failure) {
 				}
 			}
 			got := 0
-			deadline := time.Now().Add(3 * time.Second)
+			deadline := time.Now().Add(20 * time.Second)
 			for got < 2*len(closedIDs) && time.Now().Before(deadline) {
 				if e := conn.VerifConnErr(); e != nil {
 					got++
